@@ -1,7 +1,10 @@
 package types
 
 import (
+	"math/big"
+
 	sdkerrors "cosmossdk.io/errors"
+	sdkmath "cosmossdk.io/math"
 	sdk "github.com/cosmos/cosmos-sdk/types"
 
 	hubtypes "github.com/sentinel-official/hub/v12/types"
@@ -90,6 +93,9 @@ func (m *MsgUpdateDetailsRequest) ValidateBasic() error {
 	}
 	if m.Proof.Bandwidth.IsAnyNegative() {
 		return sdkerrors.Wrap(ErrorInvalidMessage, "proof.bandwidth cannot be negative")
+	}
+	if new(big.Int).Add(m.Proof.Bandwidth.Upload.BigInt(), m.Proof.Bandwidth.Download.BigInt()).BitLen() > sdkmath.MaxBitLen {
+		return sdkerrors.Wrap(ErrorInvalidMessage, "proof.bandwidth sum cannot overflow")
 	}
 	if m.Proof.Duration < 0 {
 		return sdkerrors.Wrap(ErrorInvalidMessage, "proof.duration cannot be negative")
